@@ -71,12 +71,16 @@ def run_one(path):
     finally:
         shutil.rmtree(tmp, ignore_errors=True)
 
-paths = sorted(glob.glob(os.path.join(V, "mutants", "breaking", "*.patch")) + glob.glob(os.path.join(V, "mutants", "benign", "*.patch")))
+# mutants/limits: behaviour-preserving rewrites the checks are KNOWN to alarm on (DESIGN 10.6). They are run like benign
+# ones and reported as LIMIT (still alarming) or NOWOK (no longer alarming: move the patch to benign/); never a failure.
+paths = sorted(glob.glob(os.path.join(V, "mutants", "breaking", "*.patch")) + glob.glob(os.path.join(V, "mutants", "benign", "*.patch")) + glob.glob(os.path.join(V, "mutants", "limits", "*.patch")))
 if flt:
     paths = [p for p in paths if any(f in p for f in flt)]
 fails = 0
 with concurrent.futures.ThreadPoolExecutor(jobs) as ex:
     for path, st, msg in ex.map(run_one, paths):
+        if os.path.basename(os.path.dirname(path)) == "limits":
+            st = {"FAIL": "LIMIT", "OK": "NOWOK"}.get(st, st)
         if st == "FAIL":
             fails += 1
         print(f"{st:4} {os.path.relpath(path, V)}: {msg}")
